@@ -217,7 +217,7 @@ type StackCfg struct {
 	TimeoutMs  int    `json:"timeout_ms,omitempty"`
 	Evict      bool   `json:"evict,omitempty"`
 	DeadlineMs int    `json:"deadline_ms,omitempty"`
-	Inject     bool   `json:"inject,omitempty"` // wrap the delegate with schedule points
+	Inject     bool   `json:"inject,omitempty"`   // wrap the delegate with schedule points
 	Defaults   bool   `json:"defaults,omitempty"` // use the ...WithDefaults constructor (queue kinds)
 }
 
